@@ -117,6 +117,14 @@ func (x *Exec) execInstr(st *State, in ssa.Instruction) error {
 		if x.fc != nil && x.fc.Encodable {
 			x.obligeEncodable(st, x.val(st, in.X), in.X.Type(), in.Pos())
 		}
+		if al, ok := in.X.(*ssa.Alloc); ok && al.Heap {
+			// the address of a heap-allocated struct local is boxed (row.Scan(&nullTime)): callees may write it from now on
+			if et := al.Type().(*types.Pointer).Elem(); !isOpaqueNamed(et) {
+				if k, _ := classify(et); k == TStruct {
+					x.escapedObjs = append(x.escapedObjs, al)
+				}
+			}
+		}
 		x.setReg(in, x.makeInterface(st, x.val(st, in.X), in.X.Type(), in.Type()))
 	case *ssa.ChangeInterface:
 		v := x.val(st, in.X)
